@@ -2,6 +2,15 @@
 FIELD_TB = ["section hypothesis field_theory (theorems hold for every field; the executable instance is Z mod p, Base/Zp.v)"]
 
 PROPS = {
+    "C11": {
+        "cmd": "c11",
+        "timeout": 900,
+        "translators": ["{root}/bin/xlate nondet {repo} {gen}/cases_C11_sites.v"],
+        "trusted_base": ["tools/xlate (go/packages + go/types): lists map ranges, go statements, selects, sync.Pool, clock and randomness uses with a hash of each loop body",
+                         "Det/Sites.v: the review that assigns each listed site its order-independence argument (the classification itself is a reviewed judgement; the arguments are theorems)",
+                         "third-party packages reached from std gadgets are covered by the differential runs only"],
+        "assumptions": ["the Go compiler and runtime are deterministic apart from map iteration order and scheduling"],
+    },
     "C08": {
         "cmd": "c08",
         "timeout": 1200,
